@@ -1,6 +1,8 @@
 import PlumVerif.Model.Frame
 import PlumVerif.Spec.C01
 import PlumVerif.Model.ReaderSession
+import PlumVerif.Model.ReaderChunks
+import PlumVerif.Model.ReaderSched
 /- line-protocol front end for the frame envelope model -/
 namespace PlumVerif
 
@@ -29,6 +31,36 @@ def frameOps : List String → Option String
     pure (String.intercalate ";" ((session cs).map fun
       | .call o n => Outcome.show (o, n)
       | .abandoned n => s!"A {n}"))
+  | ["sessionx", steps] => do
+    -- steps joined by ',': f<hex> bytes arrive | c calls until one blocks (abandoned) | x one call, abandoned at Frame.create if it gets there
+    let st ← (steps.splitOn ",").mapM fun w =>
+      if w = "c" then some Step.calls
+      else if w = "x" then some Step.callAbandonedAtCreate
+      else if w.startsWith "f" then (parseHex (String.ofList (w.toList.drop 1))).map Step.feed
+      else none
+    pure (String.intercalate ";" ((sessionX [] st).map fun
+      | .call o n => Outcome.show (o, n)
+      | .abandoned n => s!"A {n}"))
+  | ["readchunks", eager, chunks] => do
+    -- chunks joined by '+' ('-' = an empty chunk); eager: '-' or comma-separated numbers of chunks that have arrived before call i.
+    -- answer per call: outcome, consumed, '@', the suspensions of that call (S|H|B + bytes buffered while it waits)
+    let cs ← (chunks.splitOn "+").mapM parseHex
+    let eg ← if eager = "-" then some [] else (eager.splitOn ",").mapM String.toNat?
+    let outs := readChunks eg cs
+    let trs := traceChunksFuel (cs.flatten.length + 1) false eg [] cs
+    let showTr (t : List (RState × Nat)) : String :=
+      if t.isEmpty then "-" else String.intercalate "," (t.map fun p =>
+        (match p.1 with | .scanning => "S" | .header => "H" | .body .. => "B") ++ toString p.2 ++ "/" ++ toString (p.1.demand p.2))
+    pure (String.intercalate ";" ((outs.zip trs).map fun p => Outcome.show p.1 ++ " @ " ++ showTr p.2))
+  | ["sched", moves, chunks] => do
+    -- the reader and the arriving chunks as one system: moves 'a' (next chunk / end of stream arrives) and 'r' (the reader runs
+    -- to completion of its call or to its next suspension) in the given order.  Answer: completed calls '@' state buffered finished
+    let cs ← (chunks.splitOn "+").mapM parseHex
+    let ms ← moves.toList.mapM fun c => if c = 'a' then some Move.arrive else if c = 'r' then some Move.run else none
+    let s := (Sys.init cs).run ms
+    let tag := match s.st with | .scanning => "S" | .header => "H" | .body .. => "B"
+    pure ((if s.outs.isEmpty then "-" else String.intercalate ";" (s.outs.map Outcome.show)) ++ " @ " ++ tag ++ " " ++
+      toString s.buf.length ++ " " ++ (if s.finished then "1" else "0"))
   | ["encode", k, rc, sd, et, ev, p] => do
     let pl ← parseHex p
     let k ← k.toNat?; let rc ← rc.toNat?; let sd ← sd.toNat?; let et ← et.toNat?; let ev ← ev.toNat?
